@@ -475,13 +475,20 @@ func c17Run(ctx *core.Ctx, idx int, dotu bool, steps int) core.Result {
 			if !dotu {
 				continue
 			}
-			src, ok := pick("file")
+			srcKind := "file"
+			if r.Intn(4) == 0 {
+				srcKind = "symlink" // link(2) gives the link itself a second name, dangling or not
+			}
+			src, ok := pick(srcKind)
 			if !ok {
 				continue
 			}
 			dir, _ := pick("dir")
 			name := freeName(dir)
 			argc = "free"
+			if srcKind == "symlink" {
+				argc = "free;of-a-symlink"
+			}
 			if r.Intn(5) == 0 {
 				if ex, ok := pick("file"); ok {
 					dir, name, argc = filepath.Dir(ex), filepath.Base(ex), "existing"
@@ -500,7 +507,7 @@ func c17Run(ctx *core.Ctx, idx int, dotu bool, steps int) core.Result {
 			}
 			rep = rw.rpc(&wire.Msg{Type: wire.Tcreate, Fid: fid, Name: name, Perm: 0x01000000 | 0o644, Mode: lmode, Ext: "21"})
 			perr = os.Link(filepath.Join(twin, src), filepath.Join(twin, dir, name))
-			if perr == nil {
+			if perr == nil && srcKind != "symlink" { // (a second name of a symbolic link is not opened, like a symbolic link that is created)
 				if lf, oerr := os.OpenFile(filepath.Join(twin, dir, name), omodeFlags(lmode), 0); oerr == nil {
 					lf.Close()
 				} else {
@@ -782,6 +789,12 @@ func c17Run(ctx *core.Ctx, idx int, dotu bool, steps int) core.Result {
 				perr = e
 			}
 			mtimes[f] = true
+			// the access time was left alone (0xFFFFFFFF in the request): whatever it is now, it is not that marker
+			if fi, err := os.Stat(filepath.Join(e.root, f)); err == nil && rep != nil && rep.Type == wire.Rwstat {
+				if at := fi.Sys().(*syscall.Stat_t).Atim.Sec; at == 0xFFFFFFFF {
+					fail("atime-set-to-the-dont-touch-marker;"+argc, fmt.Sprintf("a Twstat that sets the modification time of %q and leaves the access time alone set the access time to 0xFFFFFFFF (the year 2106)", f))
+				}
+			}
 		case 13: // create below something that is not there
 			op, argc = "create-file", "missing-dir"
 			if walk(fid, "no/such/dir") {
